@@ -6,6 +6,7 @@ set_option linter.unusedSimpArgs false
 set_option linter.unusedVariables false
 
 namespace US
+open GoInt
 
 /-- the integers of a decoded request body fit their Go types (`*int32` / `*int64`) -/
 def InRange (i : Info) : Prop :=
